@@ -6,6 +6,7 @@ pub mod c04;
 pub mod c05;
 pub mod c06;
 pub mod c07;
+pub mod c08;
 pub mod c17;
 pub mod rolling;
 pub mod c09;
@@ -28,6 +29,7 @@ pub fn run(ctx: &Ctx) -> Option<Report> {
         "C06" => c06::run(ctx),
         "C17" => c17::run(ctx),
         "C07" => c07::run(ctx),
+        "C08" => c08::run(ctx),
         "C09" => c09::run(ctx),
         "C10" => c10::run(ctx),
         "C11" => c11::run(ctx),
@@ -50,6 +52,7 @@ pub fn replay(id: &str, case: &serde_json::Value) -> Option<Result<(), String>> 
         "C06" => c06::replay(case),
         "C17" => c17::replay(case),
         "C07" => c07::replay(case),
+        "C08" => c08::replay(case),
         "C09" => c09::replay(case),
         "C10" => c10::replay(case),
         "C11" => c11::replay(case),
